@@ -207,7 +207,31 @@ pub fn f_exps(u: Unit) -> String {
         }
     }
     let s = format!("{:?}", u);
-    format!("{},{}", field(&s, "millimeter_exp: "), field(&s, "second_exp: "))
+    let (m, t) = (field(&s, "millimeter_exp: "), field(&s, "second_exp: "));
+    // fast path: the derived `Debug` output, cross-checked by equality with `Unit::new`
+    if let (Ok(mi), Ok(ti)) = (m.parse::<i8>(), t.parse::<i8>()) {
+        if u == Unit::new(mi, ti) {
+            return format!("{},{}", mi, ti);
+        }
+    }
+    // `Debug` does not (any longer) show the two exponents in the derived form: find them by equality alone (a `Debug`
+    // implementation is free to change; what a unit IS can only be asked through `==`)
+    // small exponents first: 0, 1, -1, 2, -2, …
+    let order: Vec<i8> = (0..=128i16)
+        .flat_map(|k| if k == 0 { vec![0i16] } else { vec![k, -k] })
+        .filter(|k| (-128..=127).contains(k))
+        .map(|k| k as i8)
+        .collect();
+    for r in 0..order.len() {
+        for k in 0..=r {
+            for (mi, ti) in [(order[r], order[k]), (order[k], order[r])] {
+                if u == Unit::new(mi, ti) {
+                    return format!("{},{}", mi, ti);
+                }
+            }
+        }
+    }
+    "?,?".to_string()
 }
 #[cfg(not(feature = "chk"))]
 pub fn f_exps(u: Unit) -> String {
